@@ -273,6 +273,7 @@ var es = &graphql.ExecutableSchemaMock{
 
 type logCache struct {
 	inner graphql.Cache[*ast.QueryDocument]
+	limit int // the executor's parser token limit (0 = none)
 }
 
 func (c logCache) Get(ctx context.Context, key string) (*ast.QueryDocument, bool) {
@@ -289,7 +290,7 @@ func (c logCache) Add(ctx context.Context, key string, d *ast.QueryDocument) {
 	lg(ctx, "a%d", keyOf(key))
 	// Spec on the implementation: only a document that is valid under the complete rule set and has an
 	// operation may be stored (oracle verdict of this text, computed on the oracle's own copy)
-	if o := classify(key); !o.parses || o.nField != 0 || o.nOther != 0 || len(o.ops) == 0 {
+	if o := classify(key); !o.parses || o.nField != 0 || o.nOther != 0 || len(o.ops) == 0 || (c.limit != 0 && o.need > c.limit) {
 		if rl, _ := ctx.Value(logKey{}).(*reqLog); rl != nil {
 			rl.addInvalid = true
 		}
@@ -317,6 +318,7 @@ type verdict struct {
 	nOther  int
 	sugg    bool
 	emitted bool
+	need    int // tokens the parser consumes: the smallest token limit that does not refuse the text
 }
 
 var (
@@ -342,7 +344,7 @@ func classify(text string) *verdict {
 	if v, ok := table[text]; ok {
 		return v
 	}
-	v := &verdict{key: len(table)}
+	v := &verdict{key: len(table), need: tokenNeed(text)}
 	table[text] = v
 	doc, err := parser.ParseQuery(&ast.Source{Input: text})
 	if err != nil {
@@ -377,7 +379,7 @@ func qLine(text string) {
 	}
 	v.emitted = true
 	if !v.parses {
-		fmt.Fprintf(out, "Q\tQ %d -\t%s\n", v.key, strconv.Quote(text))
+		fmt.Fprintf(out, "Q\tQ %d - %d\t%s\n", v.key, v.need, strconv.Quote(text))
 		return
 	}
 	var ops []string
@@ -408,7 +410,7 @@ func qLine(text string) {
 	if v.sugg {
 		sg = 1
 	}
-	fmt.Fprintf(out, "Q\tQ %d %d:%d:%d:%s\t%s\n", v.key, v.nField, v.nOther, sg, os_, strconv.Quote(text))
+	fmt.Fprintf(out, "Q\tQ %d %d:%d:%d:%s %d\t%s\n", v.key, v.nField, v.nOther, sg, os_, v.need, strconv.Quote(text))
 }
 
 func decodeVars(js string) map[string]any {
@@ -469,6 +471,7 @@ type session struct {
 	disable bool
 	exts    []extSpec
 	server  bool // through handler.Server + one of its transports (request.via) instead of calling the executor directly
+	limit   int  // SetParserTokenLimit (0 = not configured)
 
 	exec *executor.Executor
 	srv  *handler.Server
@@ -487,18 +490,18 @@ func (s *session) line() string {
 	if len(es_) > 0 {
 		x = strings.Join(es_, ",")
 	}
-	return fmt.Sprintf("S %s %d %s", s.cache, d, x)
+	return fmt.Sprintf("S %s %d %s %d", s.cache, d, x, s.limit)
 }
 
-func newCache(kind string) graphql.Cache[*ast.QueryDocument] {
+func newCache(kind string, limit int) graphql.Cache[*ast.QueryDocument] {
 	switch {
 	case kind == "none":
-		return logCache{graphql.NoCache[*ast.QueryDocument]{}}
+		return logCache{graphql.NoCache[*ast.QueryDocument]{}, limit}
 	case kind == "map":
-		return logCache{graphql.MapCache[*ast.QueryDocument]{}}
+		return logCache{graphql.MapCache[*ast.QueryDocument]{}, limit}
 	case strings.HasPrefix(kind, "lru"):
 		n, _ := strconv.Atoi(kind[3:])
-		return logCache{lru.New[*ast.QueryDocument](n)}
+		return logCache{lru.New[*ast.QueryDocument](n), limit}
 	}
 	panic(kind)
 }
@@ -509,16 +512,22 @@ func (s *session) build() {
 		addTransports(s.srv)
 		// like DefaultRecover without printing the stack
 		s.srv.SetRecoverFunc(func(ctx context.Context, err any) error { return gqlerror.Errorf("internal system error") })
-		s.srv.SetQueryCache(newCache(s.cache))
+		s.srv.SetQueryCache(newCache(s.cache, s.limit))
 		s.srv.SetDisableSuggestion(s.disable)
+		if s.limit != 0 {
+			s.srv.SetParserTokenLimit(s.limit)
+		}
 		for _, e := range s.exts {
 			s.srv.Use(newExt(&base{e.id, e.flags}))
 		}
 		return
 	}
 	s.exec = executor.New(es)
-	s.exec.SetQueryCache(newCache(s.cache))
+	s.exec.SetQueryCache(newCache(s.cache, s.limit))
 	s.exec.SetDisableSuggestion(s.disable)
+	if s.limit != 0 {
+		s.exec.SetParserTokenLimit(s.limit)
+	}
 	for _, e := range s.exts {
 		s.exec.Use(newExt(&base{e.id, e.flags}))
 	}
@@ -1016,6 +1025,8 @@ func directed() {
 			})
 		}
 	}
+	directedNearKeys(all)
+	directedTokenLimit(all)
 	// registration order and hook subsets
 	for _, exts := range [][]extSpec{
 		{},
@@ -1030,6 +1041,73 @@ func directed() {
 			{text: "{ nope }", emit: 1, polls: 1, class_: "d-order-rejected"},
 			{text: "mutation { m1: bump m2: set(x: 3) { id v } }", emit: 1, polls: 1, class_: "d-order-mutation"},
 		})
+	}
+}
+
+// near-key families: a base text and texts that differ from it only in white space kind / comment end / string
+// white space / letter case / tail. Every sibling is requested after the base was served (and cached), and the
+// base after every sibling, with every cache kind, directly and through the server.
+var nearKeyFamilies = [][]string{
+	{"{ name # c\n}", "{ name # c }", "{ name # c\t}", "{ name # c\r}", "{ name # c\u2028}", "{ name # c\n }"},
+	{"{ k0: name # x\n k1: a\n}", "{ k0: name # x k1: a\n}", "{ k0: name # x\n k1: a }", "{ k0: name # x k1: a }"},
+	{"{ c(s: \"x y\") { id } }", "{ c(s: \"x\ny\") { id } }", "{ c(s: \"x  y\") { id } }", "{ c(s: \"x\ty\") { id } }", "{ c(s:\"x y\"){id} }"},
+	{"{ c(s: \"\"\"x\ny\"\"\") { id } }", "{ c(s: \"\"\"x y\"\"\") { id } }", "{ c(s: \"x\ny\") { id } }"},
+	{"{ name }", "{ name\u00a0}", "{\u00a0name }", "{ Name }", "{ NAME }", "{ name }\n", " { name }", "{\tname\t}", "{name}", "{ name } }", "{ name", "{ name }\v", "\ufeff{ name }", "{ name }\u0085"},
+	{"query A { a }\nquery B { name }", "query A { a } query B { name }", "query A { a }\nQuery B { name }", "query a { a }\nquery B { name }", "query A { a } #\nquery B { name }", "query A { a } # query B { name }"},
+}
+
+func directedNearKeys(all []extSpec) {
+	for _, cache := range []string{"none", "map", "lru1", "lru2", "lru1000"} {
+		for _, server := range []bool{false, true} {
+			for _, fam := range nearKeyFamilies {
+				s := &session{cache: cache, exts: all, server: server}
+				var reqs []*request
+				mk := func(t, c string) *request {
+					q := &request{text: t, emit: 1, polls: 1, class_: c}
+					if strings.HasPrefix(t, "query A") || strings.HasPrefix(t, "query a") {
+						q.op = "A"
+					}
+					return q
+				}
+				reqs = append(reqs, mk(fam[0], "d-near-base"))
+				for _, sb := range fam[1:] {
+					reqs = append(reqs, mk(sb, "d-near-sibling-after-base"), mk(fam[0], "d-near-base-after-sibling"))
+				}
+				// and the siblings from a cache that saw the base last
+				for _, sb := range fam[1:] {
+					reqs = append(reqs, mk(sb, "d-near-sibling-again"))
+				}
+				runSession(s, reqs)
+			}
+		}
+	}
+}
+
+// token limit: limits around the number of tokens the parser consumes for `long`
+func directedTokenLimit(all []extSpec) {
+	long := "{ k0: name k1: b(x: 1) { id v } }"
+	short := "{ name }"
+	commented := "{ name # a\n # b\n # c\n # d\n}"
+	need := classify(long).need
+	for _, lim := range []int{1, classify(short).need - 1, classify(short).need, classify(short).need + 1, need - 1, need, need + 1, 1000} {
+		for _, cache := range []string{"none", "map", "lru2"} {
+			for _, server := range []bool{false, true} {
+				s := &session{cache: cache, exts: all, server: server, limit: lim}
+				mk := func(q request) *request { q.emit, q.polls = 1, 1; q.class_ = "d-limit-" + q.class_; return &q }
+				runSession(s, []*request{
+					mk(request{text: long, class_: "long"}),
+					mk(request{text: short, class_: "short"}),
+					mk(request{text: long, class_: "long-again"}),
+					mk(request{text: commented, class_: "comments-count"}),
+					mk(request{text: short, pmrw: map[int]string{1: long}, class_: "rewrite-to-long"}),
+					mk(request{text: long, pmrw: map[int]string{0: short}, class_: "rewrite-to-short"}),
+					mk(request{text: long + " }", class_: "long-syntax-error"}),
+					mk(request{text: "{ k0: name k1: b(x: 1) { id v } nope }", class_: "long-invalid-tail"}),
+					mk(request{text: "query A { name } query B { a }", op: "A", class_: "two-ops-second-cut"}),
+					mk(request{text: long, class_: "long-last"}),
+				})
+			}
+		}
 	}
 }
 
@@ -1059,6 +1137,8 @@ func seq(tier string, seed uint64) {
 				pool = append(pool, genValid(r))
 			}
 		}
+		pool = widenPool(r, pool)
+		s.limit = pickLimit(r, pool)
 		var reqs []*request
 		for j, n := 0, 3+r.Below(10); j < n; j++ {
 			reqs = append(reqs, genRequest(r, s, pool))
@@ -1078,7 +1158,6 @@ func conc(seed uint64, disable bool, workers, perWorker int) {
 	}
 	s.cache = "lru3"
 	s.disable = disable
-	s.build()
 	var pool []genq
 	for j := 0; j < 6; j++ {
 		if j%3 == 2 {
@@ -1087,6 +1166,9 @@ func conc(seed uint64, disable bool, workers, perWorker int) {
 			pool = append(pool, genValid(r))
 		}
 	}
+	pool = widenPool(r, pool)
+	s.limit = pickLimit(r, pool)
+	s.build()
 	fmt.Fprintf(out, "S\t%s\tconc\n", s.line())
 	type job struct {
 		q    *request
